@@ -300,7 +300,8 @@ class EnvSession:
                 r.trace.append(f"   step raised {type(e).__name__}: {str(e)[:120]}")
                 st = "err rejected"
                 o["exc"] = f"{type(e).__name__}: {str(e)[:80]}"
-            r.op(line, st, tol / 10**4 if st.startswith("ok") else 0)
+            rtol = Fraction(1, 10**9) * max(abs(self.deposit), 1) * 10 if self.case.get("reward") == "pnl" else Fraction(1, 10**8)
+            r.op(line, st, rtol if st.startswith("ok") else 0)
             o.update(status=st.split()[0] + ("" if st.startswith("ok") else " " + st.split()[1]), action=op[1] if len(op) > 1 else None,
                      nrec_before=n_before, nrec_after=len(self.env.broker.track_record), pos_before=pos_before,
                      done_flag=bool(self.env._done))
